@@ -857,23 +857,23 @@ pub fn property() -> Property {
     }
     macro_rules! per_curve_regime {
         ($dom:ident, $S:ty) => {
-            tape2!(concat!("structured-quad2-", stringify!($dom)), STRUCTURED, 512, 6_000, 1_200_000, regime::structured_case::<$S, QuadraticBezier2<$S>, 3, 2>);
-            tape2!(concat!("structured-quad3-", stringify!($dom)), STRUCTURED, 512, 6_000, 1_200_000, regime::structured_case::<$S, QuadraticBezier3<$S>, 3, 3>);
-            tape2!(concat!("structured-cubic2-", stringify!($dom)), STRUCTURED, 512, 6_000, 1_200_000, regime::structured_case::<$S, CubicBezier2<$S>, 4, 2>);
-            tape2!(concat!("structured-cubic3-", stringify!($dom)), STRUCTURED, 512, 6_000, 1_200_000, regime::structured_case::<$S, CubicBezier3<$S>, 4, 3>);
-            tape2!(concat!("regime-core-quad2-", stringify!($dom)), REGIME_CORE, 192, 5_000, 1_000_000, regime::core_regime::<$S, QuadraticBezier2<$S>, 3, 2>);
-            tape2!(concat!("regime-core-quad3-", stringify!($dom)), REGIME_CORE, 192, 5_000, 1_000_000, regime::core_regime::<$S, QuadraticBezier3<$S>, 3, 3>);
-            tape2!(concat!("regime-core-cubic2-", stringify!($dom)), REGIME_CORE, 192, 5_000, 1_000_000, regime::core_regime::<$S, CubicBezier2<$S>, 4, 2>);
-            tape2!(concat!("regime-core-cubic3-", stringify!($dom)), REGIME_CORE, 192, 5_000, 1_000_000, regime::core_regime::<$S, CubicBezier3<$S>, 4, 3>);
-            tape2!(concat!("regime-elevate-quad2-", stringify!($dom)), REGIME_ELEVATE, 96, 2_000, 400_000, regime::elevate_regime::<$S, QuadraticBezier2<$S>, 2>);
-            tape2!(concat!("regime-elevate-quad3-", stringify!($dom)), REGIME_ELEVATE, 128, 2_000, 400_000, regime::elevate_regime::<$S, QuadraticBezier3<$S>, 3>);
-            tape2!(concat!("regime-tangent-quad2-", stringify!($dom)), REGIME_TANGENT, 160, 2_000, 400_000, regime::tangent_regime::<$S, QuadraticBezier2<$S>, 3, 2>);
-            tape2!(concat!("regime-tangent-quad3-", stringify!($dom)), REGIME_TANGENT, 160, 2_000, 400_000, regime::tangent_regime::<$S, QuadraticBezier3<$S>, 3, 3>);
-            tape2!(concat!("regime-tangent-cubic2-", stringify!($dom)), REGIME_TANGENT, 160, 2_000, 400_000, regime::tangent_regime::<$S, CubicBezier2<$S>, 4, 2>);
-            tape2!(concat!("regime-tangent-cubic3-", stringify!($dom)), REGIME_TANGENT, 160, 2_000, 400_000, regime::tangent_regime::<$S, CubicBezier3<$S>, 4, 3>);
+            tape2!(concat!("structured-quad2-", stringify!($dom)), STRUCTURED, 512, 6_000, 800_000, regime::structured_case::<$S, QuadraticBezier2<$S>, 3, 2>);
+            tape2!(concat!("structured-quad3-", stringify!($dom)), STRUCTURED, 512, 6_000, 800_000, regime::structured_case::<$S, QuadraticBezier3<$S>, 3, 3>);
+            tape2!(concat!("structured-cubic2-", stringify!($dom)), STRUCTURED, 512, 6_000, 800_000, regime::structured_case::<$S, CubicBezier2<$S>, 4, 2>);
+            tape2!(concat!("structured-cubic3-", stringify!($dom)), STRUCTURED, 512, 6_000, 800_000, regime::structured_case::<$S, CubicBezier3<$S>, 4, 3>);
+            tape2!(concat!("regime-core-quad2-", stringify!($dom)), REGIME_CORE, 192, 5_000, 600_000, regime::core_regime::<$S, QuadraticBezier2<$S>, 3, 2>);
+            tape2!(concat!("regime-core-quad3-", stringify!($dom)), REGIME_CORE, 192, 5_000, 600_000, regime::core_regime::<$S, QuadraticBezier3<$S>, 3, 3>);
+            tape2!(concat!("regime-core-cubic2-", stringify!($dom)), REGIME_CORE, 192, 5_000, 600_000, regime::core_regime::<$S, CubicBezier2<$S>, 4, 2>);
+            tape2!(concat!("regime-core-cubic3-", stringify!($dom)), REGIME_CORE, 192, 5_000, 600_000, regime::core_regime::<$S, CubicBezier3<$S>, 4, 3>);
+            tape2!(concat!("regime-elevate-quad2-", stringify!($dom)), REGIME_ELEVATE, 96, 2_000, 200_000, regime::elevate_regime::<$S, QuadraticBezier2<$S>, 2>);
+            tape2!(concat!("regime-elevate-quad3-", stringify!($dom)), REGIME_ELEVATE, 128, 2_000, 200_000, regime::elevate_regime::<$S, QuadraticBezier3<$S>, 3>);
+            tape2!(concat!("regime-tangent-quad2-", stringify!($dom)), REGIME_TANGENT, 160, 2_000, 200_000, regime::tangent_regime::<$S, QuadraticBezier2<$S>, 3, 2>);
+            tape2!(concat!("regime-tangent-quad3-", stringify!($dom)), REGIME_TANGENT, 160, 2_000, 200_000, regime::tangent_regime::<$S, QuadraticBezier3<$S>, 3, 3>);
+            tape2!(concat!("regime-tangent-cubic2-", stringify!($dom)), REGIME_TANGENT, 160, 2_000, 200_000, regime::tangent_regime::<$S, CubicBezier2<$S>, 4, 2>);
+            tape2!(concat!("regime-tangent-cubic3-", stringify!($dom)), REGIME_TANGENT, 160, 2_000, 200_000, regime::tangent_regime::<$S, CubicBezier3<$S>, 4, 3>);
         };
     }
-    const STRUCTURED: &str = "Mat * curve with STRUCTURED matrices, every accepted shape x layout: linear block identity / uniform scaling / diagonal / permutation / axis flips / signed permutation / single shear / identity + last column / identity +- 2^-e in one entry / zero / singular / general; translation zero / one axis / general; bottom row affine / (0,..,0,w) / one projective entry / general; points and translation scaled exactly by 2^k (also independently), linear block by 2^j; also matrices from vek's translation_2d/3d, scaling_2d/3d, shearing_x/y, identity, zero read back through their fields: control points and (M*c)(t) vs the point-wise definition on plain arrays, vs vek's own M applied to c.evaluate(t), independence of the bottom row; 2D<->3D conversion of the same curves";
+    const STRUCTURED: &str = "Mat * curve with STRUCTURED matrices, every accepted shape x layout: linear block identity / uniform scaling / diagonal / permutation / axis flips / signed permutation / single shear / identity + last column / identity +- 2^-e in one entry / zero / singular / general; translation zero / one axis / general; bottom row affine / (0,..,0,w) / one projective entry / general; points and translation scaled exactly by 2^k (also independently), linear block by 2^j; also matrices from vek's translation_2d/3d, scaling_2d/3d, shearing_x/y, identity, zero read back through their fields: control points and (M*c)(t) vs the point-wise definition on plain arrays, vs vek's own M applied to c.evaluate(t) (the bottom row never enters the oracle); 2D<->3D conversion of the same curves";
     const REGIME_CORE: &str = "all relations of the core check (evaluate, derivative, split, matrix(), reversed/reverse, flipped_*/flip_* and their in-place twins applied twice, From<LineSegment>/From<Range>, containers) on degenerate control polygons (point curve, doubled controls, palindromic, closed, evenly spaced on a line, on an axis / in a coordinate plane, {-1,0,1} coordinates, one control point 2^-e smaller), parameters exactly 0 / 1 / 1/2, +-2^-e, 1 +- 2^-e, +-2^e(1+f), u = t, and all lengths scaled exactly by 2^k (results scaled back exactly, tolerance relative to the scaled magnitude)";
     const REGIME_ELEVATE: &str = "into_cubic / From<Quadratic> on the same degenerate polygons, parameter regimes and 2^k length scales";
     const REGIME_TANGENT: &str = "normalized_tangent on the same degenerate polygons, parameter regimes and 2^k length scales (|k| limited so that |C'(t)|^2 stays in the normal float range): unit, along evaluate_derivative, independent of k";
@@ -899,7 +899,7 @@ pub fn property() -> Property {
     circle!("circle-cubic3-f32", circle_case::<f32, CubicBezier3<f32>, 3>);
     Property {
         id: "C14",
-        rule: "cases are byte tapes (uniform bytes, fixed seed) decoded to control points (|coord| <= 9, small fractions or continuous floats; 1/16 forced collinear, 1/16 closed), parameters t,u (1/8 special {0,1/2,1}, 3/8 proper fractions, 1/4 continuous in [0,1), 1/4 general in [-3,3]) and matrices (|entry| <= 5); a case is non-trivial when the control points are not collinear and t is not in {0,1/2,1} (tangent checks: additionally |C'(t)| is representable and not tiny); circle checks enumerate the grid t=i/1024; distinct = distinct consumed tape prefix / index per check",
+        rule: "cases are byte tapes (uniform bytes, fixed seed) decoded to control points (|coord| <= 9, small fractions or continuous floats; 1/16 forced collinear, 1/16 closed), parameters t,u (1/8 special {0,1/2,1}, 3/8 proper fractions, 1/4 continuous in [0,1), 1/4 general in [-3,3]) and matrices (|entry| <= 5); a case is non-trivial when the control points are not collinear and t is not in {0,1/2,1} (tangent checks: additionally |C'(t)| is representable and not tiny); circle checks enumerate the grid t=i/1024; regime checks (structured-*, regime-*): matrices from 12 linear-block classes x {zero, one-axis, general} translation x {affine, (0,..,0,w), one projective entry, general} bottom row (structured-*: 1/4 of the cases on degenerate polygons, 1/4 with regime parameters; regime-*: always), degenerate control polygons from 12 classes, parameters from {exactly 0, 1, 1/2, +-2^-e, 1+-2^-e, +-2^e(1+f), ordinary}, unit of length 2^k with k = 0 in half of the cases and otherwise stratified up to |k| <= 600 (f64) / 48 (f32) / 12 (Rat) (tangent: 300 / 30 / 8); a structured case is non-trivial when additionally not both of its matrices are the identity; distinct = distinct consumed tape prefix / index per check",
         assumptions: &[
             "rustc and the proptest runner/shrinker are trusted",
             "c14::oracle (Bernstein sum, de Casteljau, subdivision, power basis, hodograph on plain arrays) and vkit::refmath are the oracle; they never call vek",
@@ -909,6 +909,10 @@ pub fn property() -> Property {
             "Mat3*2D-curve / Mat4*3D-curve: documented as mul_point_2d / mul_point = `self * Vec::from_point(p)` with the last coordinate dropped (no perspective division), so arbitrary last rows are in scope",
             "flipped_z/flip_z negate z (their doc comments say `y`/`x`, copy-paste typos; the method name and the property statement are followed)",
             "unit_quarter_circle / unit_circle are checked in f64 and f32 only (sqrt(2) is irrational)",
+            "regime checks: all lengths of a case are multiplied by an exact power of two before vek sees them and vek's results are multiplied back by the inverse power (both exact), then judged with the moderate-scale bound, so every tolerance is relative to the scaled magnitude; matrix products are normalised by the power of two that brings the bound D*max|linear|*max|P| + max|translation| (times (|t|+|1-t|)^n for curve points) into [1,2)",
+            "regime checks: |k| of the unit of length is limited to 600 (f64) / 48 (f32) / 12 (Rat, i128 headroom) so that coordinate (<= 9*2^k) * matrix entry (<= 5*2^20) * (|t|+|1-t|)^n (<= 2^30, twice for split followed by evaluate) stays inside the normal float range; beyond that any implementation overflows or loses bits to subnormals. normalized_tangent squares lengths (vek documents normalized() as self / magnitude(), magnitude() as sqrt(dot)), so |k| <= 300 / 30 / 8 there",
+            "regime parameters stop at |t|, |1-t| >= 2^-40 (f64) / 2^-16 (f32) / 2^-10 (Rat) and |t| < 2^13 / 2^9 / 2^7: closer to 0 or 1 a deviation is below the rounding error relative to max|P| that the tolerance model grants every implementation, so nothing could be asserted there",
+            "Mat3*2D-curve / Mat4*3D-curve with non-affine bottom rows ((0,..,0,w) with w in {0,-1,2,1/2}, one projective entry, general): still no division, as mul_point / mul_point_2d document; matrices built by vek's constructors are judged on the entries read back through the public fields (the constructors themselves belong to other properties)",
         ],
         checks,
         max_discard_frac: 0.2,
